@@ -243,6 +243,25 @@ fn main() {
                     sig.output = ReturnType::Type(Default::default(), Box::new(ty));
                     fired.push("R9-lazy-return-type".into());
                 }
+                if let Some(until) = s(item, "until") {
+                    // R16: only the prologue of the function is taken: the statements before `let <until> = ..`
+                    let mut cut = None;
+                    for (i, st) in block.stmts.iter().enumerate() {
+                        if let Stmt::Local(l) = st {
+                            let mut p = &l.pat;
+                            if let Pat::Type(t) = p { p = &t.pat; }
+                            if let Pat::Ident(pi) = p {
+                                if pi.ident == until { cut = Some(i); break; }
+                            }
+                        }
+                    }
+                    match cut {
+                        Some(i) => { block.stmts.truncate(i); }
+                        None => fail("anchor-lost", format!("{}: no `let {} = ..` in fn {}", name, until, sig.ident)),
+                    }
+                    sig.output = ReturnType::Default;
+                    fired.push(format!("R16-prologue-until-{}", until));
+                }
                 let marker_name = s(item, "marker_name").unwrap_or_else(|| sig.ident.to_string());
                 let contract_only = item.get("contract_only").and_then(|x| x.as_bool()).unwrap_or(false);
                 if contract_only {
@@ -253,6 +272,11 @@ fn main() {
                     rules::apply_all(&mut block, item, &mut fired, &name);
                 }
                 rules::clean_sig(&mut sig);
+                if item.get("strip_where").and_then(|x| x.as_bool()).unwrap_or(false) {
+                    // bounds on the user's callback types are dropped: the extracted part never calls them
+                    sig.generics.where_clause = None;
+                    fired.push("R16-where-clause-dropped".into());
+                }
                 if item.get("world").and_then(|x| x.as_bool()).unwrap_or(false) {
                     sig.inputs.push(parse_quote! { Tracked(w): Tracked<&mut World> });
                 }
